@@ -123,7 +123,8 @@ def tlc(module, cfg, *, workers=8, timeout=1800, metadir=None, env=None, xmx="8g
     collect_prefixes are collected (or passed to sink(line)); everything else is parsed
     for statistics.  Raises ToolError on parse/semantic errors or timeout."""
     ensure_dirs()
-    metadir = metadir or os.path.join(WORK, "tlc", f"{module}-{os.getpid()}")
+    import threading
+    metadir = metadir or os.path.join(WORK, "tlc", f"{module}-{os.getpid()}-{threading.get_ident() % 100000}-{int(time.time() * 1000) % 1000000}")
     jopts = [f"-Xmx{xmx}", "-XX:+UseParallelGC"]
     if xss:
         jopts.append(f"-Xss{xss}")
@@ -464,3 +465,59 @@ def validate_trace(out, module, cfg, trace_path, label, *, timeout=3000, env=Non
             break
     out.cov["trace_events"] = out.cov.get("trace_events", 0) + len(events)
     return events, rejections
+
+
+# --------------------------------------------------------------------------- sharded validation (thorough tiers)
+def shard_trace(events, key, header_kinds, n):
+    """Split a trace into n traces by runs (consecutive events with the same `key`).  Events whose kind is in header_kinds are
+    sticky context (a world, a table, plugin rules): the latest one of each kind is re-emitted in a shard before the first run
+    that needs it there."""
+    shards = [[] for _ in range(n)]
+    seen = [dict() for _ in range(n)]         # shard -> kind -> id of the header it last got
+    current = {}                               # kind -> (serial, event)
+    serial = 0
+    k, last_run, target = -1, object(), 0
+    for e in events:
+        if e.get("ev") in header_kinds:
+            serial += 1
+            current[e["ev"]] = (serial, e)
+            continue
+        r = e.get(key)
+        if r != last_run:
+            k += 1
+            last_run = r
+            target = k % n
+            for kind, (sid, he) in current.items():
+                if seen[target].get(kind) != sid:
+                    shards[target].append(he)
+                    seen[target][kind] = sid
+        shards[target].append(e)
+    return [s for s in shards if s]
+
+
+def validate_trace_parallel(out, module, cfg, trace_path, label, *, key="run", header_kinds=("world",), n=8, timeout=40000, signature_fn=None):
+    """validate_trace over n shards with n TLC processes; a shard that is rejected is validated again through the ordinary
+    path so that violations are reported and replay files written exactly as in the sequential case."""
+    from concurrent.futures import ThreadPoolExecutor
+    events = read_ndjson(trace_path)
+    parts = shard_trace(events, key, set(header_kinds), n)
+    paths = []
+    for i, part in enumerate(parts):
+        pth = trace_path + f".shard{i}"
+        write_ndjson(pth, part)
+        paths.append(pth)
+
+    def work(pth):
+        o = Outcome(out.pid, out.tier)
+        o.dry = True
+        _, rj = validate_trace(o, module, cfg, pth, label, timeout=timeout, key=key, signature_fn=signature_fn)
+        return rj
+    with ThreadPoolExecutor(max_workers=n) as ex:
+        rjs = list(ex.map(work, paths))
+    rej = 0
+    for pth, rj in zip(paths, rjs):
+        if rj:
+            _, r2 = validate_trace(out, module, cfg, pth, label, timeout=timeout, key=key, signature_fn=signature_fn)
+            rej += r2
+    out.cov["trace_events"] = out.cov.get("trace_events", 0) + len(events)
+    return events, rej
